@@ -7,7 +7,7 @@ namespace Rot
 
 /-! ### frame lemmas: which fields `rotate` / `prepare` / `write` touch -/
 
-theorem rotate_cfg (z : Nat → Int) (w : World) (ts : Nat) : (rotate z w ts).sink.cfg = w.sink.cfg := by
+theorem rotate_cfg (P : Params) (z : Nat → Int) (w : World) (ts : Nat) : (rotate P z w ts).sink.cfg = w.sink.cfg := by
   unfold rotate
   dsimp only
   split
@@ -16,7 +16,7 @@ theorem rotate_cfg (z : Nat → Int) (w : World) (ts : Nat) : (rotate z w ts).si
     · rfl
     · split <;> rfl
 
-theorem rotate_nextRot (z : Nat → Int) (w : World) (ts : Nat) : (rotate z w ts).sink.nextRot = w.sink.nextRot := by
+theorem rotate_nextRot (P : Params) (z : Nat → Int) (w : World) (ts : Nat) : (rotate P z w ts).sink.nextRot = w.sink.nextRot := by
   unfold rotate
   dsimp only
   split
